@@ -11,16 +11,20 @@ Legs (DESIGN 3.3):
                    gcc 12 and clang 14 (every leaf of every argument carries a distinct value; the callee records what it
                    received, the caller what came back), chibicc<->chibicc included; probes for stack alignment at calls,
                    callee-saved registers, the hidden-pointer return in rax, va_list handed to / received from libc and gcc.
+  argument conversions (parse.c funcall(), C11 6.5.2.2): checklib/c06_args.py - text tie of the whole call against
+                   Model/C06Args.callText (over the argStep translated from parse.c), execution family parameter type x argument
+                   type x boundary values x position x callee compiler, register dump of what the argument register holds.
 """
 import os, json, itertools, hashlib, random
 from .framework import *
 from . import c06_gen as G
+from . import c06_args as A
 from .c06_gen import Sig
 
 PROPERTY = 'C06'
-GEN_MODULES = ['templates']
-LEAN_TARGETS = ['ChibiVerif.Props.C06', 'ChibiVerif.Findings.C06']
-PROPS_FILES = ['ChibiVerif/Props/C06.lean']
+GEN_MODULES = ['templates', 'funcall']
+LEAN_TARGETS = ['ChibiVerif.Props.C06', 'ChibiVerif.Props.C06Fp', 'ChibiVerif.Findings.C06']
+PROPS_FILES = ['ChibiVerif/Props/C06.lean', 'ChibiVerif/Props/C06Fp.lean']
 NEEDS_HOOKS = False
 TRUSTED_BASE = [
     'Lean 4.33.0 kernel; axioms admitted: propext, Classical.choice, Quot.sound (audited per theorem on every run)',
@@ -33,11 +37,20 @@ TRUSTED_BASE = [
     'gcc 12, clang 14, GNU as/ld and the host CPU as ABI oracles for the interoperation runs',
     'C06_align / C06_cleanup take `depth` (slots pushed by enclosing expressions) as the true machine-stack depth: that is C20',
     'the table of implicit register operands per mnemonic in Props/C06 (callee-saved theorem) is read from the Intel SDM by hand',
+    'translator tools/extract/funcall.py (the argument loop of parse.c funcall() as Gen.Funcall.argStep, func_params facts); hand model '
+    'lean/ChibiVerif/Model/C06Args.lean of the loop around it and of the code of a converted argument, tied on every run by equality '
+    'of the complete text of generated calls with `chibicc -S`; the argument-conversion theorems rest on C01 (`C01_cast`, `Represents`, '
+    'Model/X86 validated against the CPU by the C01 check) and on C02 (`C02_select`, relative to FpuSpec)',
+    'specification lean/ChibiVerif/Spec/C06ArgsSpec.lean (my reading of C11 6.5.2.2p2/p6/p7) and Spec/IntSpec.convert, validated on every '
+    'run against the values a gcc-compiled callee receives from a gcc-compiled caller',
 ]
 ASSUMPTIONS = [
     'argument and return types: _Bool, char, short, int, long, pointers, float, double, long double, structs/unions/arrays of '
     'these (no _Complex, __int128, vector types: chibicc has none)',
     'object sizes fit in int; counters modelled in Nat',
+    'argument-conversion theorems: between `push %rax` of an argument and its `pop` the code of the other arguments keeps the stack '
+    'balanced and does not write above %rsp (that is C20 / C01_value); arguments of struct type have the parameter\'s type (6.5.2.2p2, '
+    'not diagnosed by chibicc)',
     '`asm` statements are user text and excluded from the callee-saved claim',
 ]
 
@@ -109,6 +122,10 @@ def corpus_sigs():
         ('narrow-ret-sc', Sig(G.SCHAR, [G.CHAR] * 7)),
         ('narrow-ret-us', Sig(G.USHORT, [G.SHORT] * 8)),
         ('union-ld-l2', Sig(None, [G.union_of(LD, G.arr(L, 2)), I])),
+        ('fixed-b298aee-a', Sig(None, [S(), I])),
+        ('fixed-b298aee-b', Sig(S(), [I, S(), G.union_of(), D, S(L, D)])),
+        ('fixed-b298aee-c', Sig(None, [L] * 6 + [S(), D] + [D] * 8 + [S(), I, D])),
+        ('fixed-b298aee-d', Sig(G.union_of(), [I, S(), L], n_named=1, variadic=True)),
     ]
     return out
 
@@ -125,7 +142,7 @@ def known_witnesses():
     }
 
 
-PROBE_ARGS = ['int', 'dbl', 'ldbl', 'I', 'S', 'II', 'SS', 'IS', 'SI', 'big']
+PROBE_ARGS = ['int', 'dbl', 'ldbl', 'I', 'S', 'II', 'SS', 'IS', 'SI', 'big', 'empty']
 
 
 def probe_arg(rng, kind):
@@ -137,6 +154,8 @@ def probe_arg(rng, kind):
         return G.LDBL
     if kind == 'big':
         return G.rand_big_agg(rng)
+    if kind == 'empty':
+        return G.empty_agg(rng)
     return G.rand_small_agg(rng, kind)
 
 
@@ -705,7 +724,7 @@ def run_retdump(ctx, corr, cases, infos):
                         return 'rax is not the hidden pointer on return'
                     image = buf
                 else:
-                    image = ret_image(loctext[2:].split(','), regs)
+                    image = ret_image([x for x in loctext[2:].split(',') if x], regs)
                 for path, lt, words, rid in rets:
                     want = leaf_bytes(lt, words)
                     got = image[offs[path]: offs[path] + len(want)]
@@ -1104,7 +1123,18 @@ def correspond(ctx, corr):
                  'known-finding regions.  Each is (1) compared line by line: chibicc -S text of the call and of the callee vs the Lean model; '
                  '(2) dumped: where gcc, clang and chibicc callers put every argument byte vs Spec/PsABI.lean and vs the model; (3) run: caller and '
                  'callee compiled by different compilers (chibicc->chibicc, chibicc<->gcc, chibicc<->clang), every leaf value compared.  '
-                 'non-trivial = not (all arguments integers in registers, integer/void return, depth 0); distinct = by signature text.')
+                 'non-trivial = not (all arguments integers in registers, integer/void return, depth 0); distinct = by signature text.  '
+                 'Argument conversions: (4) whole-call text of generated calls (every scalar parameter x argument pair, variadic tails, '
+                 'unprototyped callees, arrays, structs, register exhaustion, wrong counts) vs Model/C06Args.callText; (5) executed: parameter '
+                 'type x argument type x boundary values x position {first register, third register, 7th integer / 9th SSE = stack slot, between '
+                 'SSE arguments, through a function pointer, variadic tail in registers / overflow area, unprototyped callee} x argument '
+                 'expression {variable, member, element, dereference} with callers chibicc/gcc/clang and callees gcc -O0, gcc -O2, clang -O2, '
+                 'chibicc against the gcc->gcc reference and Spec.IntSpec.convert; (6) the 64-bit image of the argument register / stack slot. '
+                 'distinct = by (types, value, position, form); every one of these is non-trivial (a conversion or promotion takes place).')
+    # argument conversions first: cheap, and independent of the signature legs
+    A.run_tie(ctx, corr)
+    A.run_exec(ctx, corr)
+    A.run_dump(ctx, corr)
     cases = gen_sigs(ctx)
     # witnesses of the known findings (they must still fail; anything else that fails is new)
     known = known_witnesses()
@@ -1154,6 +1184,18 @@ def corr_first(cases):
 def search(ctx, broken, corr):
     """a proof or the tie broke and the standard run saw no violation: a larger interoperation run"""
     setup(ctx)
+    # argument conversions: the thorough family (all positions, more values)
+    c0 = Corr()
+    was = ctx.thorough
+    ctx.thorough = True
+    try:
+        A.run_exec(ctx, c0, report_limit=1)
+        if not c0.violations:
+            A.run_dump(ctx, c0)
+    finally:
+        ctx.thorough = was
+    if c0.violations:
+        return c0.violations[0]
     rng = random.Random(ctx.seed * 7919 + 13)
     cells = [(g, f, k) for g in range(0, 8) for f in range(0, 10) for k in PROBE_ARGS]
     rng.shuffle(cells)
@@ -1173,6 +1215,15 @@ def search(ctx, broken, corr):
 def replay(ctx, corr, path):
     setup(ctx)
     payload = json.load(open(path))
+    if payload.get('mode') == 'argexec' and payload.get('case'):
+        corr.evaluations = 1
+        A.run_exec(ctx, corr, cases=[A.case_from_payload(payload)])
+        print('replay:', 'still fails' if corr.violations else 'the call now passes')
+        return
+    if payload.get('mode') == 'argdump':
+        A.run_dump(ctx, corr)
+        print('replay:', 'still fails' if corr.violations else 'the probe now passes')
+        return
     lean = payload.get('lean')
     if not lean:
         corr.extra['replay'] = 'replay file carries no signature'
@@ -1251,14 +1302,24 @@ MANIFEST = {
                   'return locations likewise, rsp = 0 mod 16 at every call (C06_align), `add $8*stack,%rsp` removes exactly what was pushed '
                   '(C06_cleanup), no emitted instruction template mentions rbx/r12-r15 and rbp/rsp are restored (C06_callee_saved, decided over the '
                   'regenerated list of all println templates), va_arg finds every variadic scalar where the psABI put it (C06_va_partial).  '
+                  'Argument conversions (parse.c funcall(), translated from the source on every run): for every parameter and argument list '
+                  'funcall() inserts the conversions and issues the diagnostics of C11 6.5.2.2 (C06_funcall_spec, C06_param_decl); for every pair of '
+                  'integer types and all 2^64 register contents the callee\'s parameter object holds the C11 conversion of the argument value, in a '
+                  'register or a stack slot (C06_arg_convert, on top of C01_cast), a _Bool argument register/slot is exactly 0 or 1 '
+                  '(C06_arg_bool_normalised), narrow arguments are extended to 32 bits (C06_arg_extension), chibicc\'s callee reads only the low '
+                  'sizeof bytes (C06_param_home), trailing arguments are promoted (C06_arg_default_promotions); with a floating side relative to '
+                  'C02\'s FpuSpec (Props/C06Fp.lean: C06_arg_convert_fp, C06_arg_bool_normalised_fp, C06_arg_default_promotions_fp).  '
                   'Tied to the code on every run by equality of the emitted assembly lines, a register-dump comparison with gcc and clang, and '
                   'link-time interoperation in both directions.',
     'level_note': 'Trusted: Lean kernel; the hand model (tied by asm-text equality on generated signatures = testing); tools/extract/templates.py; '
                   'Spec/PsABI.lean (validated against gcc 12 and clang 14 placements each run); `depth` is taken as the real operand-stack depth (C20). '
+                  'The argument-conversion theorems take the value of the argument expression in %rax as given (C01) and the stack discipline '
+                  'between an argument\'s push and its pop as given (C20). '
                   'Five known findings are regions excluded from C06_abi (struct with long double, long double stack alignment, padding-only '
-                  'eightbyte, packed/empty struct parameters, va_arg of small structs).',
+                  'eightbyte, packed struct parameters with unaligned members, va_arg of small structs).',
     'technique': 'Lean 4: structural induction on member trees (has_flonum vs eightbyte classes), induction on argument lists with (gp, fp, stack) '
-                 'invariants, whole-table decide over translator-extracted instruction templates; asm-text tie; register-dump and link-time '
-                 'interoperation with gcc and clang as ABI oracles',
+                 'invariants, whole-table decide over translator-extracted instruction templates, induction on parameter/argument lists over the '
+                 'translated argument loop of funcall(), bit-vector reasoning over Model/X86 for push/pop/store_gp composed with C01_cast; asm-text '
+                 'tie; register-dump and link-time interoperation with gcc and clang as ABI oracles',
     'design_ref': 'DESIGN.md section 6, C06',
 }
